@@ -49,8 +49,24 @@
 (*   with how many nodes, Monte-Carlo samples) and the shape of the        *)
 (*   result.  Transcribed from _OneDimensionalLikelihood, _Likelihood and  *)
 (*   the five classes.  Monte-Carlo cells are not decided by the replay.   *)
+(*                                                                         *)
+(* "rediff"  The derivative clause of log_normal_cdf ("a derivative equal  *)
+(*   to phi/Phi to the same relative accuracy") under REPEATED             *)
+(*   differentiation.  LogNormalCDF has a hand-written backward that reads *)
+(*   what the forward left on the context (two saved tensors and, for      *)
+(*   entries with z < -1, the continued-fraction numerator / denominator   *)
+(*   kept as plain attributes).  The machine of BackwardOps.tla runs       *)
+(*   forward -> backward^k (k <= BWMaxBwd) through ONE graph with          *)
+(*   different upstream gradients, with retain_graph, with accumulation    *)
+(*   into .grad, and as Jacobian rows / per-observation gradients, for     *)
+(*   log_normal_cdf itself over the classes of its argument (all entries   *)
+(*   in the tail z < -1, the three branches mixed in one tensor, no tail   *)
+(*   entry) and for BernoulliLikelihood.expected_log_prob, whose           *)
+(*   quadrature nodes times +-1 always reach below -1.  Invariant: every   *)
+(*   pass sees what the forward stored, i.e. delivers u_j . phi/Phi - the  *)
+(*   first pass and every later one.                                       *)
 (***************************************************************************)
-EXTENDS Rational, Shapes, TLC
+EXTENDS Rational, Shapes, TLC, BackwardOps
 
 CONSTANTS Part,
           Instances,     \* "moments": set of [mn, sn, dd, coef]
@@ -220,16 +236,42 @@ LatticeOK ==
 LatticeOut(x) == [path |-> PathOf(x.lik, x.method), integrand |-> IntegrandOf(x.lik, x.method), nodes |-> NodesOf(x),
                   shape |-> ResultShape(x), decided |-> PathOf(x.lik, x.method) # "mc"]
 
+\* ============================== repeated differentiation of log_normal_cdf ========================
+\* zc: class of the argument tensor.  "tail": every entry below -1; "mixed": entries of all three branches; "notail": no entry below -1
+\* (LogNormalCDF.forward then stores no numerator / denominator).  For the Bernoulli route the argument is (2y - 1)(m + sqrt(2v) t_i) over the
+\* nodes t_i: "confident-right" (sign(m) = 2y - 1, |m| large), "confident-wrong", "uncertain" - all of them contain tail entries.
+RediffCases ==
+  [route : {"log_normal_cdf"}, zc : {"tail", "mixed", "notail"}, batch : {"none", "b2"}]
+  \cup [route : {"bernoulli_elp"}, zc : {"confident-right", "confident-wrong", "uncertain"}, batch : {"none", "b2"}]
+RediffTail(x) == x.zc # "notail"
+\* the accuracy the property grants the derivative, by branch: relative 2e-3 where the rational tail approximation is differentiated, rounding elsewhere
+DerivAccuracy == [tail |-> "2e-3 relative to phi/Phi", body |-> "rounding (1e-12 relative)"]
+RediffOut(m) == [m |-> m, exp |-> BWExpected(m), accuracy |-> DerivAccuracy]
+RediffNext == /\ \E m2 \in BWSteps(out.m, "lncdf") : out' = RediffOut(m2)
+              /\ UNCHANGED c
+RediffOK ==
+  Part = "rediff" =>
+    /\ DOMAIN out.m.ctx = BWNames("lncdf", RediffTail(c))
+    /\ (RediffTail(c) <=> {"numerator", "denominator"} \subseteq DOMAIN out.m.ctx)      \* the attributes exist exactly when the tail branch of the backward reads them
+    /\ BWTypeOK(out.m)
+    /\ BWPure(out.m)
+    /\ BWDerivOK(out.m)                 \* pass j delivers u_j . d/dz log_normal_cdf(z), for every j
+    /\ out.exp = BWExpected(out.m)
+\* without purity: fails only on a history with two passes when BWImpure is not empty (vacuity guard of the histories)
+RediffDerivOK == Part = "rediff" => BWDerivOK(out.m)
+
 \* ============================== machine ===========================================================
 Init ==
   /\ c \in (CASE Part = "moments" -> Instances
               [] Part = "rule"    -> {[n |-> n, mn |-> i.mn, sn |-> i.sn, dd |-> i.dd] : n \in 1..3, i \in RuleLattice}
               [] Part = "shapes"  -> ShapeCases
-              [] Part = "lattice" -> LatticeCells)
+              [] Part = "lattice" -> LatticeCells
+              [] Part = "rediff"  -> RediffCases)
   /\ out = (CASE Part = "moments" -> MomentsOut(c)
               [] Part = "rule"    -> RuleOut(c)
               [] Part = "shapes"  -> ShapesOut(c)
-              [] Part = "lattice" -> LatticeOut(c))
-Next == UNCHANGED vars
+              [] Part = "lattice" -> LatticeOut(c)
+              [] Part = "rediff"  -> RediffOut(BWStart("lncdf", RediffTail(c))))
+Next == IF Part = "rediff" THEN RediffNext ELSE UNCHANGED vars
 Spec == Init /\ [][Next]_vars
 =============================================================================
